@@ -91,6 +91,10 @@ def expected(l):
         if a[0] > SMAX:
             return "nopanic", False      # not representable: the statement does not say what must happen
         return ("some", str(a[0]), a[1]), a[0] >= SMAX - 1
+    elif op == "elapsed_sys":
+        c = (int(l["c"][0]), int(l["c"][1]))
+        tc = c[0] * NPS + c[1]
+        return ("elapsed", "none" if ta >= tc + 10 * NPS else ("some" if ta + 10 * NPS <= tb else "either")), False
     elif op == "elapsed":
         c = (int(l["c"][0]), int(l["c"][1]))
         tc = c[0] * NPS + c[1]
@@ -139,7 +143,7 @@ def run_arith(chk, bindir, tier, build="debug"):
     # must all be rejected (checked below)
     rng = random.Random(chk.seed)
     cand = [i for i, l in enumerate(lines) if expected(l)[0] not in ("nopanic",) and l["out"][0] != "panic"
-            and l["op"] != "elapsed"]      # elapsed() is only bracketed, a small falsification stays inside the bracket
+            and not l["op"].startswith("elapsed")]      # elapsed() is only bracketed, a small falsification stays inside the bracket
     pick = [rng.choice(cand) for _ in range(60)] if cand else []
     fals = [corrupt(rng, lines[i]) for i in pick]
     nreal = len(lines)
